@@ -429,7 +429,7 @@ func runC11(a *Args) error {
 	prelude := "From NV Require Import Base C11_Model C11_Registry.\nOpen Scope string_scope.\n"
 	w := NewCaseWriter(a, "C11", prelude, "xcase", "xrun")
 	w.ShardSize = 270 // quick: 6 shards, one per coqc process of bin/check
-	w.Rule = "(systematic) for 3 annotation sets of the artifact (empty-valued, two entries, nil) x 22 second steps B (colliding / same-value / reserved exact, without dot, with dot / near misses of the prefix / digest resolving elsewhere / empty media type / signer error / push error / zero time / other artifact colliding there or only here / by digest / full, tag+digest, upper-case host, reference-less forms / empty and nil metadata / plugin annotations / other chain and time) the sequences A-B-A, B-A-B, B-B-A on ONE repository instance with the same option and map objects for equal steps, in both modes; (random) histories of 1-3 consecutive notation.SignOCI calls with an instrumented signer against (mem) an in-memory repository whose Resolve returns its stored descriptor with the stored annotation map, and (oci) a real on-disk OCI layout opened with registry.NewOCIRepository whose tag entry carries annotations. Resolved descriptors with nil / empty / 1-3 annotations; user metadata nil / empty / disjoint / colliding with an annotation / under the reserved prefix (and near misses of the prefix) / mixed; references: tag, digest, full reference with tag or digest, unknown, digest resolving to another digest; option errors; signer errors, nil SignerInfo, zero signing time, chains of 0-3 certificates; signer with/without PluginAnnotations (nil, empty, populated, stale thumbprint); push ok / error / referrers-index-deletion error; 60% of the later calls repeat the first call's options with the same map objects; (faults, XFault cases of C11_Registry) ONE registry.NewRepository client over a wrapper around a real on-disk oci.Store that fails exactly one store operation of one call of a 3-call history with the same reference, options and map objects: for 4 variants (tag+metadata / digest+plugin annotations / full reference+COSE+plugin config / empty config blob already in the layout) the operation index ranges over every operation of a recorded clean run (Resolve, Push envelope blob, Exists config, Push config, Push manifest) and one beyond, failing before or after the operation takes effect (plain error or context.DeadlineExceeded), in the first call (fail, good, good) and in the second (good, fail, good); the answer of PushSignature is NOT an input there but computed by the model from the store content (the client keeps no state: every call on the healthy store must succeed and add exactly its signature); plus a signer that repeats its envelope bytes (the layout refuses the second Push of the blob). non-trivial = some call reached the signer or was refused for digest mismatch / reserved / colliding metadata; distinct = distinct (input, observation) terms"
+	w.Rule = "(systematic) for 3 annotation sets of the artifact (empty-valued, two entries, nil) x 22 second steps B (colliding / same-value / reserved exact, without dot, with dot / near misses of the prefix / digest resolving elsewhere / empty media type / signer error / push error / zero time / other artifact colliding there or only here / by digest / full, tag+digest, upper-case host, reference-less forms / empty and nil metadata / plugin annotations / other chain and time) the sequences A-B-A, B-A-B, B-B-A on ONE repository instance with the same option and map objects for equal steps, in both modes; (random) histories of 1-3 consecutive notation.SignOCI calls with an instrumented signer against (mem) an in-memory repository whose Resolve returns its stored descriptor with the stored annotation map, and (oci) a real on-disk OCI layout opened with registry.NewOCIRepository whose tag entry carries annotations. Resolved descriptors with nil / empty / 1-3 annotations; user metadata nil / empty / disjoint / colliding with an annotation / under the reserved prefix (and near misses of the prefix) / mixed; references: tag, digest, full reference with tag or digest, unknown, digest resolving to another digest; option errors; signer errors, nil SignerInfo, zero signing time, chains of 0-3 certificates; signer with/without PluginAnnotations (nil, empty, populated, stale thumbprint); push ok / error / referrers-index-deletion error; 60% of the later calls repeat the first call's options with the same map objects; (faults, XFault cases of C11_Registry) ONE registry.NewRepository client over a wrapper around a real on-disk oci.Store that fails exactly one store operation of one call of a 3-call history with the same reference, options and map objects: for 4 variants (tag+metadata / digest+plugin annotations / full reference+COSE+plugin config / empty config blob already in the layout) the operation index ranges over every operation of a recorded clean run (Resolve, Push envelope blob, Exists config, Push config, Push manifest) and one beyond, failing before or after the operation takes effect (plain error or context.DeadlineExceeded), in the first call (fail, good, good) and in the second (good, fail, good); the answer of PushSignature is NOT an input there but computed by the model from the store content (the client keeps no state: every call on the healthy store must succeed and add exactly its signature); plus a signer that repeats its envelope bytes (the layout refuses the second Push of the blob); (referrers fallback, XRef cases) ONE registry.NewRepository client over oras remote.Repository against ONE long-lived in-memory distribution registry WITHOUT the Referrers API: 2-3 SignOCI calls on one artifact (tag / digest, with / without metadata), every pattern of calls during which the manifest DELETE (of the superseded referrers index) fails while blob DELETE works; after every call the store is inspected: signature manifest over the resolved subject listed in its referrers index, layers[0] fetchable with the signer's bytes, store entries removed. non-trivial = some call reached the signer or was refused for digest mismatch / reserved / colliding metadata; distinct = distinct (input, observation) terms"
 	w.Assumptions = []string{
 		"every Go map that exists before the first call is a heap object identified by its pointer; a map allocated by SignOCI and handed to one callee is a value (MFresh)",
 		"orasRegistry.ParseReference and digest.Parse are oracles (their answer on the case's reference is an input of the model)",
@@ -525,6 +525,18 @@ func runC11(a *Args) error {
 		}
 		if err := g.history(w, rng.Fork(uint64(my)), my, "flt", faultScenario(fp)); err != nil {
 			return fmt.Errorf("fault history %s (%d): %w", fp.name(), my, err)
+		}
+	}
+	// referrers tag-schema family: one long-lived registry without the Referrers API, the DELETE of
+	// the superseded referrers index fails during chosen calls (XRef cases)
+	for _, rp := range refPlans() {
+		my := id
+		id++
+		if !w.Want(my) {
+			continue
+		}
+		if err := refHistory(w, my, rp); err != nil {
+			return fmt.Errorf("referrers history %s (%d): %w", rp.name(), my, err)
 		}
 	}
 	return w.Close()
